@@ -153,6 +153,19 @@ struct Conv {
             one(e, rng, false);
         } while (sc::next_ext<N>(e, Bnd));
     }
+    // extents far beyond the exhaustive bound: padded curve sides of 1024, 2048, 4096 (N = 1, 2 only; float1 cells)
+    static void run_large(vh::Rng & rng)
+    {
+        static_assert(N <= 2);
+        static const std::size_t G1[] = {513, 600, 777, 1023, 1025, 2049, 4097};
+        static const std::size_t G2[][2] = {{513, 2}, {3, 600}, {1025, 1}, {2, 1027}, {520, 3}, {31, 33}, {1, 2049}};
+        const std::size_t n = N == 1 ? sizeof G1 / sizeof G1[0] : sizeof G2 / sizeof G2[0];
+        for (std::size_t i = 0; i < n; ++i) {
+            sc::ext_t<N> e;
+            for (std::size_t k = 0; k < N; ++k) e[k] = N == 1 ? G1[i] : G2[i][k % 2];
+            one(e, rng, true);
+        }
+    }
     static void one(const sc::ext_t<N> & e, vh::Rng & rng, bool listed)
     {
         const std::string nm = std::string(lname[LA]) + "->" + lname[LB] + ",N=" + std::to_string(N) + ",array<" + vh::tn<S>() + "," + std::to_string(M) + ">" + (std::is_same_v<IDX, std::size_t> ? "" : std::string(",idx=") + vh::tn<IDX>()) + (std::is_same_v<S, ST> ? "" : std::string(",target stores ") + vh::tn<ST>());
@@ -399,6 +412,9 @@ int main(int argc, char ** argv)
     Conv<L_HILBERT, L_MORTON_T, 2, float, 1, std::size_t, double>::run(B[2], rng);
     Stack<L_HILBERT, L_HILBERT, true, false, 2, float, 3, double, true>::run(B[2], rng, 3);
     Stack<L_HILBERT, L_MORTON_F, false, false, 2, double, 1, double, true>::run(B[2], rng, 3);
+    Conv<L_HILBERT, L_STRIDED, 2, float, 1>::run_large(rng);
+    Conv<L_HILBERT, L_MORTON_T, 2, float, 1>::run_large(rng);
+    Conv<L_HILBERT, L_HILBERT, 2, float, 1>::run_large(rng);
 #else
     targets_all_n<L_STRIDED>(rng, B);
     targets_all_n<L_MORTON_T>(rng, B);
@@ -413,6 +429,12 @@ int main(int argc, char ** argv)
     Conv<SH_SRC, L_MORTON_T, 3, float, 1, unsigned>::run_listed(rng);
     Conv<SH_SRC, L_STRIDED, 3, float, 1, int>::run_listed(rng);
     Conv<SH_SRC, L_MORTON_T, 2, double, 3, unsigned char>::run(B[2], rng);
+    // extents whose padded curve side is 1024 and more
+    Conv<SH_SRC, L_MORTON_T, 1, float, 1>::run_large(rng);
+    Conv<SH_SRC, L_MORTON_F, 2, float, 1>::run_large(rng);
+    Conv<SH_SRC, L_MORTON_T, 2, float, 1>::run_large(rng);
+    Conv<SH_SRC, L_HILBERT, 2, float, 1>::run_large(rng);
+    Conv<SH_SRC, L_STRIDED, 2, float, 1>::run_large(rng);
     // whole stacks, as the benchmarks convert them
     Stack<SH_SRC, L_STRIDED, false, true, 3, float, 3>::run(B[3], rng, 3);
     Stack<SH_SRC, L_MORTON_T, false, false, 3, float, 3>::run(B[3], rng, 3);
